@@ -228,6 +228,8 @@ def gen_cases(ctx):
         for share in (False, True):
             for pi, p in enumerate(paths_of(s)):
                 for vi, v in enumerate(VALUES):
+                    if quick and vi != (si + pi) % 2:
+                        continue  # quick: one of the two values per (object, path), alternating; thorough: both
                     yield _case(f"A{si}-{int(share)}-{pi}-{vi}", s, share, [_op(0, p, v)])
     # B. base alphabet, depth 3 (the shapes of MC_Heap_q/t): thorough = every shape x every path, quick = seeded sample
     S3 = roots(3, False)
@@ -254,6 +256,8 @@ def gen_cases(ctx):
         for share in (False, True):
             for pi, p in enumerate(new_slot_paths(s)):
                 for vi, v in enumerate(VALUES):
+                    if quick and vi != (si + pi) % 2:
+                        continue
                     yield _case(f"E{si}-{int(share)}-{pi}-{vi}", s, share, [_op(0, p, v, True)])
     for n in range(200 if quick else 6000):
         s = S3[rng.randrange(len(S3))]
